@@ -53,13 +53,13 @@ def run(tier, replay):
                               {"cmd": [exe] + [str(a) for a in args]})
             for e in evs:
                 e["id"] = len(events); events.append(e)
-        if tier == "thorough":
+        for scale in (["mid"] if tier == "quick" else ["mid", "full"]):
             exe = wv.build("h_hash_big", ["hash"], ["h_hash.cpp"], ["-DWENCRY_VERIF_HBUF_SZ=2"], sanitize=False, opt="-O2")
-            p = os.path.join(d, "big.ndjson")
-            r = wv.run_harness(exe, ["big"], p, timeout=1500)
+            p = os.path.join(d, "big_%s.ndjson" % scale)
+            r = wv.run_harness(exe, ["big", scale], p, timeout=1500)
             evs = wv.read_ndjson(p)
             if r.returncode != 0 or len(evs) != 15:
-                res.violation("long-message hash run did not complete (rc=%d, %d of 15 events)" % (r.returncode, len(evs)), {"cmd": [exe, "big"]})
+                res.violation("long-message hash run (%s) did not complete (rc=%d, %d of 15 events)" % (scale, r.returncode, len(evs)), {"cmd": [exe, "big", scale]})
             for e in evs:
                 e["id"] = len(events); events.append(e)
     # read-level binding of the streaming model: every read_buffer64 call of the real filebuffer64 as one
@@ -89,7 +89,7 @@ def run(tier, replay):
         else:
             keys.add((e["alg"], "big", tuple(e["nl"]), len(e["tail"])))
     res.cov.update({"evaluations": len(events), "distinct_nontrivial": len([k for k in keys if k[-1] != 0 or k[1] == "big"]),
-                    "rule": "one case = (algorithm, entry point [getStringHash | getFileHash through filebuffer64 with refill 1/2/3 units, with and without the 64-byte HMAC prefix block, stream positioned 0 or 5 bytes into the file], message length); every length 0..%d, patterned and random contents; thorough adds 15 messages around 2^29 bytes (bit counter crossing 2^32) checked through the chaining value. Non-trivial = non-empty message. Each digest is recomputed by TLC from the executable FIPS 180-4 / RFC 1321 transcription (spec/SHA1.tla, MD5.tla, SHA256.tla, MD.tla)." % maxlen,
+                    "rule": "one case = (algorithm, entry point [getStringHash | getFileHash through filebuffer64 with refill 1/2/3 units, with and without the 64-byte HMAC prefix block, stream positioned 0 or 5 bytes into the file], message length); every length 0..%d, patterned and random contents; 15 messages around 8 KiB and 2 MiB (third / fourth byte of the bit length) and, in thorough, 15 around 2^29 bytes (bit counter crossing 2^32), checked through the chaining value before the tail. Non-trivial = non-empty message. Each digest is recomputed by TLC from the executable FIPS 180-4 / RFC 1321 transcription (spec/SHA1.tla, MD5.tla, SHA256.tla, MD.tla)." % maxlen,
                     "traces_validated_against_impl": len(events), "validator_states": st["states"], "exhaustive": False})
     for e in events[:: max(1, len(events) // 4)][:4]:
         res.sample({k: (v if not isinstance(v, list) or len(v) <= 24 else v[:24] + ["..."]) for k, v in e.items()})
